@@ -430,6 +430,9 @@ def run_check(pid, tier, seed, replay=None):
                          "" if hit else " (listed; not re-observed in this run)"))
     exit_code = 0
     replay_path = None
+    stale = os.path.join(OUTROOT, "replays", "%s-%s-seed%d.json" % (pid, tier, seed))
+    if not (new_viol or problems) and os.path.exists(stale):
+        os.remove(stale)     # a passing run supersedes the replay of an earlier failing run with the same parameters
     if new_viol or problems:
         exit_code = 1
         os.makedirs(os.path.join(OUTROOT, "replays"), exist_ok=True)
